@@ -19,15 +19,15 @@ type Run struct {
 
 // CheckDef describes how one property is decided.
 type CheckDef struct {
-	Prop      string
-	Level     string
-	Technique string
-	Quick     []Run
-	Thorough  []Run
+	Prop           string
+	Level          string
+	Technique      string
+	Quick          []Run
+	Thorough       []Run
 	QuickBudget    time.Duration
 	ThoroughBudget time.Duration
 	// Custom, when set, replaces the E1 runs (E3 / E2 checks).
-	Custom func(tier string, seed int64) *CustomResult
+	Custom      func(tier string, seed int64) *CustomResult
 	Assumptions []string
 	// Replay, when set, re-executes one stored counterexample of a Custom check directly (returns 1 when reproduced).
 	Replay func(fp string, raw interface{}) int
